@@ -31,10 +31,12 @@ CLAIMED["C02"] = {
              "zero divisors give the language's error; on numeric operands the result is an int iff both are; NULL absorbs; and/or short-circuit "
              "and reject non-booleans, not negates, a comparison chain is the conjunction of its adjacent pairs (all for every expression/operand, "
              "no bound); every `is not P` / negated postfix branch of the parser is NodeNot of the positive branch (finite theorem over tables "
-             "regenerated from parse_pred_expr on every run). Precedence/associativity has no parser theorem yet: it is decided by the correspondence "
-             "(minimally parenthesised renderings of expression trees, every ordered operator pair) - partial."),
+             "regenerated from parse_pred_expr on every run). Precedence and association: C02_parse_render - the hand model of the operator core of the parser "
+             "(Model/ExprParse.v) reads the canonical text of every well-formed tree of any depth back as that tree (levels or < and < not < comparison < additive < "
+             "multiplicative < unary < call, left association, no omitted parenthesis needed), C02_parse_chain, C02_parse_neg/_pos; the model is tied to parse_script "
+             "by correspondence on generated token lists and trees. Forms outside that alphabet (in, is, !>, derefs): correspondence only - partial."),
     "note": ("Coq kernel + vm_compute; PrimFloat primitives (decimal results compared bit for bit, no theorem about rounding); hand models "
-             "Model/Arith.v + Model/Values.v tied by correspondence (sampling); tools/translate/pred_gen.py (fail-closed)."),
+             "Model/Arith.v + Model/Values.v + Model/ExprParse.v tied by correspondence (sampling); tools/translate/pred_gen.py (fail-closed)."),
     "technique": "Coq proof over hand + generated Gallina models, vm_compute correspondence against the interpreter",
 }
 CLAIMED["C06"] = {
@@ -131,7 +133,7 @@ CLAIMED["C13"] = {
 
 _LEX = ("Coq kernel + vm_compute; the scanner step coq/Gen/LexGen.v is regenerated from Lexer.scan on every run by tools/translate/lexer_gen.py "
         "(fail-closed symbolic execution of the loop body; Prelude/LexPrelude.v gives the meaning of the Python string operations used) and compared "
-        "with Lexer.scan on the run's texts; the parser has no Gallina model; no axioms.")
+        "with Lexer.scan on the run's texts; of the parser only the operator core has a Gallina model (Model/ExprParse.v, hand-written, tied by the correspondence of checks/C02.py); no axioms.")
 CLAIMED["C14"] = {
     "text": ("Theorems in coq/Props/C14.v about the scanner step regenerated from Lexer.scan: in the blank state every layout character (space, tab, CR, LF) "
              "and every # comment up to its line break is consumed without emitting or changing the token list, for all texts (gap_irrelevant, "
@@ -156,7 +158,8 @@ CLAIMED["C20"] = {
 CLAIMED["C01"] = {
     "text": ("Theorems in coq/Props/C01.v about the regenerated scanner step: for every text the scanner yields a token list or a lexical error within three "
              "steps per character (lex_total, step_shape; a host exception is not an outcome of the generated step: the translator accepts int(..,16)/chr only "
-             "under the guards present in the source). The recursive-descent parser has no model: its totality is decided by enumeration of the property's "
+             "under the guards present in the source). C01_parse_core_total: the hand model of the operator core of the recursive-descent parser (seven precedence levels, primaries, calls) "
+             "yields a tree or a syntax error for every token list - no loop counter or nesting fuel runs out. The rest of the parser has no model: its totality is decided by enumeration of the property's "
              "quantifier on the implementation (about 700,000 distinct texts per quick run: prefixes, single-token edits over the token alphabet read from "
              "lexer.py/parser.py, token sequences, noise; each parsed twice under a 3 s bound) - C01_parse_partial."),
     "note": _LEX,
